@@ -48,6 +48,8 @@ type c09case struct {
 }
 
 // an errors.v3 error with stack info, created once at a source line different from every log call
+var c09huge = strings.Repeat("0123456789abcdef", 100<<10/16)
+
 var c09v3err = errorsv3.New("v3 error with stack")
 
 type c09world struct {
@@ -113,6 +115,9 @@ func (w *c09world) issue(k c09call) {
 	case "egroup":
 		// an empty group that sorts last, and one in the middle
 		l.WriteThru(bg, sev, fixedTime, 0, "with empty groups", slog.Attrs{slog.NewAttr("a", 1), slog.Group("m"), slog.NewAttr("n", 2), slog.Group("zone")})
+	case "huge":
+		// a record far beyond any buffer size a pool may want to keep (a dumped payload)
+		l.WriteThru(bg, sev, fixedTime, 0, "a dumped payload follows", slog.Attrs{slog.NewAttr("body", c09huge), slog.NewAttr("after", 1)})
 	case "reent":
 		// a value that logs a record with nested groups on a side logger while this record is being formatted
 		l.WriteThru(bg, sev, fixedTime, 0, "re-entrant\nvalue", slog.Attrs{slog.NewAttr("a", 1), slog.Group("alpha", "p", 1, slog.Group("inner", "v", reentV{"text"}, "w", 2), "q", 3), slog.NewAttr("z", "last")})
@@ -160,7 +165,10 @@ func c09calls(thorough bool) (hist, probes []c09call) {
 	// history alphabet: a representative subset issued on the probed logger, a sibling and the default logger
 	for _, f := range []string{"color", "json", "logfmt"} {
 		for _, s := range []slog.Level{slog.ErrorLevel, c09Colored, slog.TraceLevel} {
-			for _, sh := range []string{"rich", "rich-eol", "egroup", "verb", "verb-small", "plain", "reent", "verb-scoped-flags", "value-panics", "zone-instant"} {
+			for _, sh := range []string{"rich", "rich-eol", "egroup", "verb", "verb-small", "plain", "reent", "verb-scoped-flags", "value-panics", "zone-instant", "huge"} {
+				if sh == "huge" && (s != slog.ErrorLevel || !thorough && f != "color") {
+					continue
+				}
 				if sh == "zone-instant" && (s != slog.ErrorLevel || !thorough && f == "logfmt") {
 					continue
 				}
@@ -177,6 +185,9 @@ func c09calls(thorough bool) (hist, probes []c09call) {
 					continue
 				}
 				for _, tg := range []string{"probed", "sibling", "default"} {
+					if !thorough && sh == "huge" && tg != "sibling" {
+						continue
+					}
 					if !thorough && tg == "default" && f != "color" {
 						continue
 					}
